@@ -82,6 +82,10 @@ type TNode struct {
 	// Malleated, if non-nil, is a copy of Block with the same id and an altered
 	// body; core rejects it (commitment mismatch) wherever Block is valid.
 	Malleated *types.Block
+	// TS is the timestamp the block was built with before any corruption: a
+	// child of a block dated far in the future carries an ordinary timestamp
+	// (a refused future block must not become usable through its children).
+	TS time.Time
 }
 
 // Index returns the chain index of the node.
@@ -182,7 +186,12 @@ func BuildTree(tc TreeCase) *Tree {
 func (t *Tree) buildNode(i int, spec BlockSpec, parent *TNode) *TNode {
 	node := &TNode{Idx: i, Parent: parent, Height: parent.Height + 1}
 	cs := parent.Hdr
-	ts := parent.Block.Timestamp.Add(time.Duration(clamp(spec.Dt, 0, 3600)) * time.Second)
+	base := parent.Block.Timestamp
+	if parent.Corrupt == "timestamp-future" && !parent.TS.IsZero() {
+		base = parent.TS
+	}
+	ts := base.Add(time.Duration(clamp(spec.Dt, 0, 3600)) * time.Second)
+	node.TS = ts
 	miner := Actors[mod(spec.Miner, NumActors)].Addr
 	var txns, baseTxns []types.Transaction
 	var v2txns, baseV2 []types.V2Transaction
